@@ -17,4 +17,13 @@ def imul8 (ax : BitVec 16) (v : BitVec 8) : Bool :=
   let p : BitVec 16 := (ax.setWidth 8).signExtend 16 * v.signExtend 16
   ((ax >>> 8).setWidth 8 != 255#8) != (p != (p.setWidth 8).signExtend 16)
 
+/-- KF-JLE: JLE/JNG is implemented as `ZF ∧ SF≠OF`; wrong iff that differs from `ZF ∨ SF≠OF` -/
+def jle (fl : BitVec 16) : Bool :=
+  let z := fl.getLsbD 6; let l := fl.getLsbD 7 != fl.getLsbD 11
+  (z && l) != (z || l)
+
+/-- KF-LEA-SEG: LEA subtracts DS*16 from the physical address; wrong iff the operand's segment differs
+    from DS by something that does not vanish modulo 2^16 after the shift by 4 -/
+def lea (ds seg : BitVec 16) : Bool := ((seg - ds) <<< 4) != 0#16
+
 end Emu8086.KF
